@@ -85,6 +85,11 @@ func findHarness(l *loaded, pkgDir, fn string) (*ssa.Function, []*ssa.Function, 
 	}
 	f := p.Func(fn)
 	if f == nil {
+		for virt, msg := range droppedHarness {
+			if strings.HasPrefix(virt, filepath.Join(repoDir, pkgDir)+"/") {
+				return nil, nil, nil, fmt.Errorf("cannot load: harness %s is not available, a harness file of its package does not compile against this tree (%s: %s)", fn, filepath.Base(virt), msg)
+			}
+		}
 		return nil, nil, nil, fmt.Errorf("function %s.%s not found", ip, fn)
 	}
 	return f, nil, nil, nil
@@ -370,6 +375,35 @@ func nativePhase(prop string, runs []*harnessRun) {
 				rf.r.nativeFailures = append(rf.r.nativeFailures, nativeFailure{tape: s.Tape, outcome: o})
 			default:
 				rf.r.mismatches = append(rf.r.mismatches, fmt.Sprintf("sample tape=%v engine=%s/%v native=%s/%v %s", s.Tape, s.Outcome, filterTrace(s.Trace), o.Outcome, o.Trace, o.Msg))
+			}
+		}
+		// A finding that did not reproduce in the shared test process is tried once more alone in a
+		// fresh process: state that earlier cases left in process-wide pools and caches (sync.Pool)
+		// can mask a history-dependent defect that needs a FRESH process to show.
+		solo := 0
+		for cid, rf := range refs {
+			if rf.key == "" || solo >= 8 {
+				continue
+			}
+			if prev, seen := rf.r.findingOutcome[rf.key]; seen && isFailure(prev.Outcome) {
+				continue
+			}
+			var one []replayCase
+			for _, c := range cases {
+				if c.ID == cid {
+					one = append(one, c)
+				}
+			}
+			if len(one) != 1 {
+				continue
+			}
+			solo++
+			outs1, _, err1 := runNative(pkgDir, pkgNameOf(pkgDir), fl, one, 60)
+			if err1 != nil {
+				continue
+			}
+			if o, ok := outs1[cid]; ok && isFailure(o.Outcome) {
+				rf.r.findingOutcome[rf.key] = o
 			}
 		}
 	}
